@@ -59,7 +59,8 @@ def measures_ok(val, r, facts, name):
 
 def check(case, ctx):
     G = lib()
-    a, b, tag = case
+    a, b, tag = case[0], case[1], case[2]
+    var = case[3] if len(case) > 3 else B.DEFAULT_VAR
     r = X.inter(a, b)
     touching = r is not None and r[0] != {("G", "G"): "G", ("G", "K"): "G", ("K", "G"): "G", ("K", "K"): "K"}[(a[0], b[0])]
     cls = "%s-%s/%s:%s" % (a[0], b[0], tag.split("|")[0], B.kind_name(r))
@@ -70,7 +71,9 @@ def check(case, ctx):
         ctx.nontrivial((a, b))
     ctx.sample(cls, case, B.kind_name(r))
     e = B.fdesc(r)
-    oa, ob = B.build(a), B.build(b)
+    if "rot" in tag:
+        var = ("f", var[1], "f", var[3])
+    oa, ob = B.build_var(a, b, var)
     calls = [
         ("intersection(a,b)", G.intersection, (oa, ob)),
         ("intersection(b,a)", G.intersection, (ob, oa)),
@@ -94,7 +97,7 @@ def check(case, ctx):
 
 
 def admit(case, fail):
-    a, b, _t = case
+    a, b = case[0], case[1]
     return A.body_case_margin(a, b, X.inter(a, b)).reason()
 
 
@@ -150,17 +153,17 @@ def strata(tier):
     out = []
     n = 50 if q else 2000
     for r in GG_COPLANAR:
-        out.append(Stratum("G-G/coplanar/" + r, "hyp", gg_coplanar(r), n))
-        out.append(Stratum("G-G/coplanar/" + r + "/rot", "hyp", rotated(gg_coplanar(r)), n // 2))
+        out.append(Stratum("G-G/coplanar/" + r, "hyp", gen.with_variant(gg_coplanar(r)), n))
+        out.append(Stratum("G-G/coplanar/" + r + "/rot", "hyp", gen.with_variant(rotated(gg_coplanar(r))), n // 2))
     for r in GG_CROSSING:
-        out.append(Stratum("G-G/crossing/" + r, "hyp", gg_crossing(r), n))
-        out.append(Stratum("G-G/crossing/" + r + "/rot", "hyp", rotated(gg_crossing(r)), n // 2))
+        out.append(Stratum("G-G/crossing/" + r, "hyp", gen.with_variant(gg_crossing(r)), n))
+        out.append(Stratum("G-G/crossing/" + r + "/rot", "hyp", gen.with_variant(rotated(gg_crossing(r))), n // 2))
     n = 48 if q else 1200
     for r in GK:
-        out.append(Stratum("G-K/" + r, "hyp", gk(r), n))
-        out.append(Stratum("G-K/" + r + "/rot", "hyp", rotated(gk(r)), n // 2))
+        out.append(Stratum("G-K/" + r, "hyp", gen.with_variant(gk(r)), n))
+        out.append(Stratum("G-K/" + r + "/rot", "hyp", gen.with_variant(rotated(gk(r))), n // 2))
     n = 36 if q else 640
     for r in KK:
-        out.append(Stratum("K-K/" + r, "hyp", kk(r), n))
-        out.append(Stratum("K-K/" + r + "/rot", "hyp", rotated(kk(r)), n // 2))
+        out.append(Stratum("K-K/" + r, "hyp", gen.with_variant(kk(r)), n))
+        out.append(Stratum("K-K/" + r + "/rot", "hyp", gen.with_variant(rotated(kk(r))), n // 2))
     return out
